@@ -254,7 +254,8 @@ func (c *Core) forward(bp BundleDescriptor) {
 
 	// Try a direct delivery or consult the Algorithm otherwise.
 	nodes = c.senderForDestination(bp.MustBundle().PrimaryBlock.Destination)
-	if nodes == nil {
+	var directDelivery = nodes != nil
+	if !directDelivery {
 		nodes, deleteAfterwards = c.routing.SenderForBundle(bp)
 	}
 
@@ -279,7 +280,10 @@ func (c *Core) forward(bp BundleDescriptor) {
 					"error":  err,
 				}).Warn("Sending bundle failed")
 
-				c.routing.ReportFailure(bp, node)
+				// Only CLAs selected by the routing algorithm are reported back to it.
+				if !directDelivery {
+					c.routing.ReportFailure(bp, node)
+				}
 			} else {
 				log.WithFields(log.Fields{
 					"bundle": bp.ID(),
